@@ -248,7 +248,7 @@ def t_truth(rng, wb):
 def t_smart_quotes(rng, wb):
     sites = []
     for s in wb["sheets"]:
-        if s["name"].lower() not in ("survey", "choices", "settings"):
+        if s["name"].lower() not in ("survey", "choices", "settings", "external_choices"):
             continue
         for ri, r in enumerate(s["rows"]):
             for ci, v in enumerate(r):
@@ -295,7 +295,7 @@ def t_cell_space(rng, wb):
 # ---- layout
 
 def t_col_perm(rng, wb):
-    s = pick_sheet(rng, wb)
+    s = pick_sheet(rng, wb, ("survey", "choices", "settings", "external_choices"))
     if s is None or len(s["cols"]) < 2:
         return None
     perm = list(range(len(s["cols"])))
@@ -349,13 +349,30 @@ def t_blank_run(rng, wb):
     return f"blank_run:{s['name']}:{k}x{n}"
 
 
+RAW_SHEETS = [
+    None,                                                        # plain text sheet (cols/rows only)
+    [["a", "a", "b"], [1, 2, 3]],                                # duplicate caption
+    [[1, 2.5, ["__date__", "2020-01-02T00:00:00"], True], ["x", "y", "z", "w"]],   # numbers / date / boolean in the first row
+    [[None, None, None], ["x", "y", None], [None, None, None], [3, None, "z"]],     # empty first row, gaps
+    [],                                                          # completely empty sheet
+    [["total", None, "total"], [None, 10, 10.5], ["sum", None, ["__date__", "2021-03-04T05:06:07"]]],
+    [["only one cell"]],
+]
+
+
 def t_extra_sheet(rng, wb):
+    """Irrelevant workbook content: a sheet that is not an XLSForm sheet (unrelated or underscore-prefixed name) with
+    arbitrary cells — typed values, duplicate or missing captions, empty rows.  File channels carry the raw cells;
+    markdown / dict carry the plain text rendering."""
     name = rng.choice(spell.UNRELATED_SHEETS)
     if any(s["name"].lower() == name.lower() for s in wb["sheets"]):
         return None
     new = {"name": name, "cols": ["a", "b"], "rows": [["1", "x"], ["2", None]], "orig": [2, 3]}
+    k = rng.randrange(len(RAW_SHEETS))
+    if RAW_SHEETS[k] is not None:
+        new["raw"] = copy.deepcopy(RAW_SHEETS[k])
     wb["sheets"].insert(rng.randint(0, len(wb["sheets"])), new)
-    return f"extra_sheet:{name}"
+    return f"extra_sheet:{name}:raw{k}"
 
 
 def t_sheet_case(rng, wb):
